@@ -154,3 +154,26 @@ theorem intDecode_kernel (c : Bytes) : GenK.intDecode (bytesInts c) = .ok (intFr
       fromBytes_signed]
 
 end Asn1.Kernels
+
+namespace Asn1.Kernels
+
+/-- a number below `256 ^ k` has at most `k` base-256 digits -/
+theorem be256_length_le : ∀ (k n : Nat), n < 256 ^ k → (be256 n).length ≤ k
+  | 0, n, h => by
+    have : n = 0 := by simpa using h
+    subst this; simp [be256, beDigits_zero]
+  | k + 1, n, h => by
+    by_cases hn : n = 0
+    · subst hn; simp [be256, beDigits_zero]
+    · have hq : n / 256 < 256 ^ k := by
+        rw [Nat.pow_succ] at h
+        exact Nat.div_lt_of_lt_mul (by omega)
+      have := be256_length_le k (n / 256) hq
+      simp only [be256] at this ⊢
+      rw [beDigits_pos 254 n hn]
+      simp only [List.length_append, List.length_singleton]
+      have e : n / (254 + 2) = n / 256 := rfl
+      rw [e]
+      omega
+
+end Asn1.Kernels
